@@ -1,6 +1,8 @@
 //! Verification harness: drives the real crates from /repo and writes ndjson traces that the
 //! TLA+ trace specifications in /verif/spec judge.  Rust only drives and projects; no verdicts.
+mod alloc;
 mod bq;
+mod tendrilops;
 mod meta;
 mod rcdomops;
 mod parse;
@@ -10,6 +12,9 @@ mod tok;
 mod tokgen;
 mod utf8;
 mod util;
+
+#[global_allocator]
+static GLOBAL: alloc::Observer = alloc::Observer;
 
 fn main() {
     // panics are data: silence the default hook, messages are captured by util::catch
@@ -23,6 +28,8 @@ fn main() {
     match argv[1].as_str() {
         "bq" => bq::main(&args),
         "tok" => tok::main(&args),
+        "tendril" => tendrilops::main(&args),
+        "tendril-mt" => tendrilops::main_mt(&args),
         "meta" => meta::main(&args),
         "rcdom" => rcdomops::main(&args),
         "parse" => parsegen::main(&args),
